@@ -161,7 +161,7 @@ def distribution(d, case, obs):
         if e[-1] is not None:
             bump("failed_event", e[0])
     bump("flags", "ow=%d owp=%d rm=%d" % (cfg["overwrite"], cfg["overwrite_part"], cfg["rm_part_on_exc"]))
-    bump("init", "dest=%d part=%d" % ("dest" in case["init"], "part" in case["init"]))
+    bump("init", "dest=%d part=%d%s" % ("dest" in case["init"], "part" in case["init"], " (hard link)" if c04.is_partlink(case["init"]) else ""))
     bump("umask", oct(case["umask"]))
     bump("perms", str(cfg["file_perms"]))
     bump("api", cfg.get("api", "func"))
